@@ -148,7 +148,9 @@ def run_hypothesis(mod, stage, tier, seed, n_examples, stats: Stats) -> None:
             raise
 
     phases = [Phase.generate, Phase.shrink]
-    st = settings(max_examples=n_examples,
+    # Hypothesis always starts with the minimal example: give every worker
+    # one extra so that a share of 1 is not spent on it alone.
+    st = settings(max_examples=n_examples + 1,
                   database=None,
                   deadline=None,
                   derandomize=False,
